@@ -11,7 +11,6 @@ known = [
  ("F15", ["C08"], "a join whose operands read the same table (leaf.join(leaf)) compiles to FROM t JOIN t without aliases; SQLite: 'ambiguous column name' (needs automatic aliasing - not small)"),
  ("F16", ["C08"], "a chain whose operand is itself a chain compiles to a parenthesised compound SELECT, which SQLite rejects (near \"(\": syntax error); the parenthesised strings are pinned by tests/test_sql_engine.py::test_chains"),
  ("F19", ["C08"], "it_leaf.join(it_leaf2) is accepted by the factory; iteration.Engine.execute() then raises EngineError('Joins are not supported by the iteration engine') - a documented limitation, but an unsupported-node error after acceptance"),
- ("F25", ["C08"], "a.chain(b).sorted([<expression that is not a plain column>]) compiles to UNION ... ORDER BY c + c, which SQLite (and the SQL standard) rejects: ORDER BY terms of a compound SELECT must be result columns"),
 ]
 fixed = [
  ("F1", "C09", "c6c6e2b", "hash(rel.sorted([...])) raised TypeError: unhashable type 'SortTerm'"),
@@ -31,6 +30,7 @@ fixed = [
  ("F29", "C03", "249999f", "an operation with preferred_engine applied to a tree returned by process(): backtracking that fails below a payload-carrying Transfer made reapply() return a payload-less copy, so the half-commuted operation (e.g. a widened Projection) was installed: +[y](Π[c,e,y](→[it](L0))) cannot be evaluated"),
  ("F30", "C14", "d360695", "process() output ending in a round trip it->it2->it (empty chain branch pruned): rel.transferred_to(rel.engine) returned the leaf upstream of the round trip instead of rel itself"),
  ("F28", "C07", "d0e28da", "chain(X, statically-empty).sorted(s).with_rows_satisfying(p): un-sliced sort buried in a subquery without raising; a join on top accepted; process() pruned the empty branch, the sort resurfaced and the order-loss error was raised by process() instead of the factory call; also C08, C11"),
+ ("F25", "C08", "5ceda30", "a.chain(b).sorted([<expression that is not a plain column>]) compiled to UNION ... ORDER BY c + c, rejected by SQLite (and the SQL standard)"),
  ("F27", "C08", "149b8d5", "identity_in_sql.join(rel_in_iteration) accepted: Select marker around an iteration-engine relation; process() AssertionError in Select.reapply; also C20 (engine mismatch not rejected), C14"),
  ("F26", "C14", "8ebe476", "sql_rel.transferred_to(sql) returned a new Select around sql_rel (not the relation itself), burying an un-sliced sort; found through C08 (order-loss error raised only by process())"),
 ]
